@@ -707,7 +707,8 @@ pub fn boxes_for(id: &str, quick: bool) -> Vec<Box_> {
         "C02" => {
             for ana in [Ana::EdfP, Ana::EdfNp, Ana::EdfLp, Ana::EdfFl] {
                 v.push(mk("1 task T<=6 J<=12 C<=4 + curves D{1,5,20}", ana, 1, with_curves(sporadic_grid(6, 12)), 4, &[1, 5, 20], false));
-                if quick {
+                // (the thorough tier runs every box of the quick tier, too)
+                {
                     if matches!(ana, Ana::EdfLp | Ana::EdfFl) {
                         // all segment layouts / section lengths of C <= 2 (tasks with different
                         // longest segments are what the blocking term is about)
@@ -729,7 +730,13 @@ pub fn boxes_for(id: &str, quick: bool) -> Vec<Box_> {
                         if matches!(ana, Ana::EdfLp | Ana::EdfFl) { 1 } else { 2 }, &[1, 3, 5], false));
                     v.push(mk("2 tasks T<=5 J<=2 C<=2 D{1,3,6}", ana, 2, sporadic_grid(5, 2), 2, &[1, 3, 6], false));
                     v.push(mk("2 tasks curves C<=2 D{2,5}", ana, 2, with_curves(sporadic_grid(3, 1)), 2, &[2, 5], false));
-                } else {
+                }
+                if !quick {
+                    v.push(mk("3 tasks T{2,3,5,7,19} J=0 C<=3 D{4,9,20}", ana, 3,
+                        [2u64, 3, 5, 7, 19].iter().map(|t| ArrSpec::Sporadic { t: *t, j: 0 }).collect(),
+                        if matches!(ana, Ana::EdfP | Ana::EdfNp) { 3 } else { 2 }, &[4, 9, 20], false));
+                    v.push(mk("4 tasks T{4,5,6} C<=2 D{1,3,5}", ana, 4, vec![ArrSpec::Sporadic { t: 4, j: 0 }, ArrSpec::Sporadic { t: 5, j: 0 }, ArrSpec::Sporadic { t: 6, j: 0 }],
+                        if matches!(ana, Ana::EdfLp | Ana::EdfFl) { 1 } else { 2 }, &[1, 3, 5], false));
                     v.push(mk("3 tasks T<=5 J<=2 C<=2 D{1,3,6}", ana, 3, sporadic_grid(5, 2), 2, &[1, 3, 6], false));
                     v.push(mk("2 tasks T<=7 J<=4 C<=3 D{1,2,4,7,10,14}", ana, 2, sporadic_grid(7, 4), 3, &[1, 2, 4, 7, 10, 14], false));
                     v.push(mk("3 tasks curves+sporadic C<=2 D{2,5}", ana, 3, with_curves(sporadic_grid(3, 1)), 2, &[2, 5], false));
